@@ -408,7 +408,11 @@ def run_empty(case, res):
     res.transitions += 2
     res.outcomes.append(h64(a))
     kb = [(t.kind, t.value) for t in tb]
-    i = next(i for i, x in enumerate(kb) if x == ("NUM", 7777))
+    i = next((i for i, x in enumerate(kb) if x == ("NUM", 7777)), None)
+    if i is None:
+        res.violate("C05|%s|%s|int|-" % (pos, d), "value is not emitted as exactly one literal that decodes to the original (the marker constant "
+                    "7777 does not appear)", dialect=d, pos=pos, sql=b)
+        return
     pre, post = kb[:i], kb[i + 1:]
     ka = [(t.kind, t.value) for t in ta]
     ok = ka[:len(pre)] == pre and (not post or ka[len(ka) - len(post):] == post) and len(ka) > len(pre) + len(post)
